@@ -42,6 +42,9 @@ type Stats struct {
 	Violations   []VioRec          `json:"violations"`
 	Inconclusive []string          `json:"inconclusive"`
 	Notes        map[string]string `json:"notes"`
+	// Known holds the signatures of open known findings: a step whose violations are all known is
+	// recorded but does not end the history (so coverage behind a known defect is still explored).
+	Known map[string]bool `json:"-"`
 }
 
 func NewStats() *Stats {
@@ -155,11 +158,22 @@ func RunHistory(s *Sim, p *Profile, mons []Monitor, stats *Stats, index int) {
 			vs = append(vs, m.Post(s, st)...)
 		}
 		if len(vs) > 0 {
+			allKnown := true
 			for _, v := range vs {
 				v.Step = st.I
+				if stats.Known[v.Sig] {
+					stats.Counters["known:"+v.Sig]++
+					if stats.Counters["known:"+v.Sig] > 3 {
+						continue // keep a few witnesses per worker, count the rest
+					}
+				} else {
+					allKnown = false
+				}
 				stats.Violations = append(stats.Violations, VioRec{Violation: *v, Index: index, Cfg: s.Cfg.String(), History: append([]string(nil), s.Hist...), Detail: Detail(st)})
 			}
-			return
+			if !allKnown {
+				return
+			}
 		}
 	}
 	if index%7 == 0 {
